@@ -88,7 +88,7 @@ def main():
         os.remove(os.path.join(wt, dest))
         if detect and ok:
             e = dict(os.environ, VERIF_REPO=wt, VERIF_RUNS=runs)
-            p = subprocess.run(["./check", prop, "quick"], cwd="/verif", env=e, stdout=subprocess.PIPE, stderr=subprocess.STDOUT, text=True)
+            p = subprocess.run(["./check", prop, "quick"], cwd=os.environ.get("VERIF_ROOT", "/verif"), env=e, stdout=subprocess.PIPE, stderr=subprocess.STDOUT, text=True)
             lines = [l for l in p.stdout.splitlines() if l.startswith("VIOLATION") or l.strip().startswith("key:") or l.strip().startswith("seed:") or "quick:" in l or l.startswith("KNOWN") or l.startswith("HARNESS")]
             meta["check"] = {"cmd": "VERIF_REPO=<worktree with patch> VERIF_RUNS=%s ./check %s quick" % (runs, prop), "exit": p.returncode, "lines": [l[:400] for l in lines]}
             meta["detected"] = p.returncode == 1
@@ -100,7 +100,7 @@ def main():
                     if other == prop:
                         continue
                     e2 = dict(os.environ, VERIF_REPO=wt, VERIF_RUNS="240")
-                    p2 = subprocess.run(["./check", other, "quick"], cwd="/verif", env=e2, stdout=subprocess.PIPE, stderr=subprocess.STDOUT, text=True)
+                    p2 = subprocess.run(["./check", other, "quick"], cwd=os.environ.get("VERIF_ROOT", "/verif"), env=e2, stdout=subprocess.PIPE, stderr=subprocess.STDOUT, text=True)
                     l2 = [l for l in p2.stdout.splitlines() if l.startswith("VIOLATION") or l.strip().startswith("key:") or "quick:" in l or l.startswith("HARNESS")]
                     meta.setdefault("other_checks", []).append({"property": other, "exit": p2.returncode, "lines": [l[:300] for l in l2]})
                     if p2.returncode == 1:
